@@ -69,6 +69,14 @@ def handler(st, opts):
                     tt.save(X, path)
                     tt.save(-X, os.path.join(dd, names[1]))
                     Y = tt.load(path)
+                    # the same path written again (an object of the same structure, hence a file of the same size) and read
+                    # back: load returns what the file holds now
+                    NX = -X
+                    tt.save(NX, path)
+                    Z = tt.load(path)
+                    if not isinstance(Z, tt.TT) or len(Z.cores) != len(NX.cores) or any(
+                            a.shape != b.shape or not torch.equal(a.detach().resolve_conj(), b.detach().resolve_conj()) for a, b in zip(Z.cores, NX.cores)):
+                        problems.append(P("overwrite", "load after the file was overwritten does not return the object saved last"))
                 finally:
                     shutil.rmtree(dd, ignore_errors=True)
             elif op == "clone_c": Y = X.clone()
